@@ -37,7 +37,7 @@ EXHAUSTIVE_NOTE = {"quick": "all pipelines of 1..2 stages over 48 stage behaviou
 
 CPS = ["none", "pass", "reject", "raise"]
 _stage = st.fixed_dictionaries({
-    "cp": st.sampled_from(CPS + ["pass", "truthy", "falsy"]),
+    "cp": st.sampled_from(CPS + ["pass", "truthy", "falsy"]), "gate_object": st.sampled_from([False, False, False, True]),
     "proc": st.sampled_from(["pass", "pass", "pass", "raise"]),
     "err": st.sampled_from(["none", "none", "pass", "raise"]),
     "required": st.sampled_from([True, True, False]),
@@ -70,6 +70,16 @@ def _amp_table():
 def enumerate_cases(tier):
     for case in _amp_table():
         yield case
+    for cp in ("pass", "reject", "raise"):
+        for halt in (True, False):
+            st1 = {"cp": cp, "proc": "pass", "err": "none", "required": True, "amp": 2, "gate_object": True}
+            yield {"halt": halt, "max_amp": 10, "input": 0, "stages": [st1]}
+            yield {"halt": halt, "max_amp": 10, "input": 0, "stages": [st1], "parallel": True}
+            yield {"halt": halt, "max_amp": 10, "input": 0, "stages": [{"cp": "pass", "proc": "pass", "err": "none", "required": True, "amp": 2}, st1]}
+    for amp in (0.5, 3, 50):
+        for halt in (True, False):
+            yield {"halt": halt, "max_amp": 100, "input": 0, "stages": [{"cp": "pass", "proc": "raise", "err": "pass", "required": True, "amp": amp},
+                                                                         {"cp": "none", "proc": "pass", "err": "none", "required": True, "amp": 5}]}
     for cp, proc, req in itertools.product(CPS, ["pass", "raise"], [True, False]):
         one = {"cp": cp, "proc": proc, "err": "none", "required": req, "amp": 2}
         yield {"halt": True, "max_amp": 10, "input": 0, "stages": [one], "parallel": True}
@@ -94,6 +104,19 @@ def _stage_name(case, i):
     if mode == "pairs":
         return "s%d" % (i // 2)
     return "s%d" % i
+
+
+class _GateObject:
+    """a checkpoint given as a callable object whose truth value is False (len() == 0): it is still the stage's checkpoint"""
+
+    def __init__(self, fn):
+        self.fn = fn
+
+    def __call__(self, sig):
+        return self.fn(sig)
+
+    def __len__(self):
+        return 0
 
 
 class _Weird:
@@ -139,8 +162,11 @@ def _build(case, log):
             log.append(("err", i, None, list(res)))
             return res
 
+        gate = None if spec["cp"] == "none" else cp
+        if gate is not None and spec.get("gate_object"):
+            gate = _GateObject(cp)          # a callable *object* that happens to be falsy (an empty allow-list with __call__ and __len__)
         return CascadeStage(name=_stage_name(case, i), processor=proc, amplification=spec["amp"],
-                            checkpoint=None if spec["cp"] == "none" else cp,
+                            checkpoint=gate,
                             on_error=None if spec["err"] == "none" else err, required=spec["required"])
 
     build = case.get("build", "append")
@@ -209,6 +235,9 @@ def _judge_parallel(case):
             if not pe or pe[0][3] == "raise":
                 out.fail("false-success:run_parallel", "run reported successful although stage %d did not complete" % i, d)
                 return out
+    elif res.final_output is not None:
+        out.fail("output-released-on-failure:run_parallel", "unsuccessful run released final_output %r" % (res.final_output,), d)
+        return out
     return out
 
 
@@ -313,6 +342,7 @@ def judge(case):
             return out
     # R6 amplification
     fac = []
+    recovered = False
     # every visited stage appends exactly one result, in order: align by position (stage names may repeat)
     for i, spec in enumerate(stages):
         r = res.stage_results[i] if i < len(res.stage_results) else None
@@ -324,9 +354,14 @@ def judge(case):
             if pe and pe[0][3] != "raise" and not _close(r.amplification_factor, spec["amp"]):
                 out.fail("amplification:factor-misreported", "stage %d reports factor %r, configured %r" % (i, r.amplification_factor, spec["amp"]), d)
                 return out
-            fac.append(r.amplification_factor)
+            # a stage completed through its error handler is a completed stage: its configured factor counts ("the clamped product of completed stages' factors")
+            fac.append(spec["amp"])
+            if pe and pe[0][3] == "raise":
+                recovered = True
     a = 1.0
     b = 1.0
+    if recovered:
+        out.label("recovered-stage-in-amplification")
     for f in fac:
         a = min(a * f, case["max_amp"])
         b *= f
